@@ -25,9 +25,18 @@
    so the former _partial theorems were vacuous.  The depth conditions are encoding/json's nesting
    limit of 10000, which counts the envelope: a value nested 9999 deep is marshalled and then rejected
    inside the message that carries it (c13_nesting_limit_counts_envelope_error_data, c13_nesting_limit_counts_envelope_batch); hence the batch theorem
-   asks for msg_rt_at 1 (members sit one container deep). *)
+   asks for msg_rt_at 1 (members sit one container deep).
+
+   Null ids and null params (wire/WireMore.v).  Every server reply to an invalid or id-less member
+   carries "id":null and a client whose params value marshals to null writes "params":null; msg_ok
+   and msg_rt exclude both.  The domains msg_ok' (id_ok' i := i = null_bytes \/ id_ok i) and
+   msg_rt_at' (id null / string / number literal; params absent, null, or an array / object value)
+   admit them: c13_single_line_null_ids, c13_parse_back_null_ids, c13_parse_back_batch_null_ids.
+   The member parser keeps the null id (j_id = "null"), fixID reads it as absent (pr_id = [], the
+   message counts as a notification when it is a request); null params are read as absent by the
+   member parser: the message denoted is canon (norm m). *)
 From Coq Require Import List NArith ZArith Bool.
-From JV Require Import Bytes Json JsonProofs JsonPrint Msg Wire WireProofs WireSpecs.
+From JV Require Import Bytes Json JsonProofs JsonPrint Msg Wire WireProofs WireSpecs WireMore.
 Import ListNotations.
 Local Open Scope N_scope.
 
@@ -163,3 +172,28 @@ Theorem c13_flags_agree : forall (s : bytes) (batch : bool) (raws : list bytes),
        In e (allowed_errs r) /\ (we_code e = ParseError \/ we_code e = InvalidRequest)).
 Proof. exact flags_agree. Qed.
 Print Assumptions c13_flags_agree.
+
+(* -- null ids, null params ------------------------------------------------------------------ *)
+
+Theorem c13_single_line_null_ids : forall (batch : bool) (ms : list jmsg), Forall msg_ok' ms ->
+  exists b, enc_msgs batch ms = Some b /\ (forall c, In c b -> 32 <= c) /\ valid_utf8 b = true.
+Proof. exact single_line_msgs'. Qed.
+Print Assumptions c13_single_line_null_ids.
+
+Theorem c13_parse_back_null_ids : forall (m : jmsg) (b : bytes), msg_rt' m -> enc_msg m = Some b ->
+  parse_member b = canon (norm m) /\ parse_msgs b = InMsgs false [canon (norm m)] /\
+  parse_requests b = Parsed [to_parsed (canon (norm m))] /\
+  j_id (parse_member b) = j_id m /\
+  (j_id m = null_bytes -> pr_id (to_parsed (parse_member b)) = [] /\
+                          is_notification (parse_member b) = is_req_or_notif (parse_member b)) /\
+  (j_params m = null_bytes -> j_params (parse_member b) = []).
+Proof. exact parse_back'. Qed.
+Print Assumptions c13_parse_back_null_ids.
+
+Theorem c13_parse_back_batch_null_ids : forall (batch : bool) (ms : list jmsg) (b : bytes),
+  (batch = true \/ length ms <> 1%nat) ->
+  Forall (msg_rt_at' 1) ms -> enc_msgs batch ms = Some b ->
+  parse_msgs b = InMsgs true (map (fun m => canon (norm m)) ms) /\
+  parse_requests b = Parsed (map (fun m => to_parsed (canon (norm m))) ms).
+Proof. exact parse_back_batch'. Qed.
+Print Assumptions c13_parse_back_batch_null_ids.
